@@ -143,7 +143,7 @@ theorem minv_cleared (t t' : T) (h : MInv t) (hu : t'.used = t.used) (hw : t'.wi
 theorem minv_connectionLost (t : T) (h : MInv t) : MInv t.connectionLost.1 := by
   unfold T.connectionLost
   simp only []
-  exact minv_wakeAll t.blocked { t with closing := true, canSend := true, blocked := [] } []
+  exact minv_wakeAll t.blocked { t with closing := true, lost := true, canSend := true, blocked := [] } []
     (minv_cleared t _ h rfl rfl rfl rfl) (woken_of_blocked t _ h rfl rfl rfl rfl rfl)
 
 theorem earliest_none : ∀ (l : List Writer), earliest l = none → l = []
@@ -214,7 +214,7 @@ theorem minv_fire (t : T) (limit : Int) (hl : t.now ≤ limit) (h : MInv t) :
     split
     · -- all timers at `d` fire, everybody else is released by the loss: nobody stays blocked
       have hcl := wire_wakeAll_closing (t.atDeadline d).blocked
-        { (t.atDeadline d) with closing := true, canSend := true, blocked := [] } [] rfl rfl
+        { (t.atDeadline d) with closing := true, lost := true, canSend := true, blocked := [] } [] rfl rfl
       have hm : MInv (t.atDeadline d) := by
         refine ⟨h.wireUsed, ?_, h.wireNodup, ?_, ?_, h.delayPos, ?_⟩
         · intro m hm
@@ -256,6 +256,25 @@ theorem minv_fire (t : T) (limit : Int) (hl : t.now ≤ limit) (h : MInv t) :
       have h2 := earliest_le _ _ he w hw
       simp only []
       omega
+
+/-- dropping some blocked senders (cancelled) keeps the message invariant -/
+theorem minv_filter (t : T) (p : Writer → Bool) (h : MInv t) :
+    MInv { t with blocked := t.blocked.filter p } := by
+  refine ⟨h.wireUsed, ?_, h.wireNodup, ?_, ?_, h.delayPos, ?_⟩
+  · intro m hm
+    apply h.blockedUsed
+    simp only [msgs, List.mem_map, List.mem_filter] at hm ⊢
+    obtain ⟨w, ⟨hw, _⟩, rfl⟩ := hm; exact ⟨w, hw, rfl⟩
+  · have := h.blockedNodup
+    simp only [msgs] at this ⊢
+    exact List.Nodup.sublist (List.Sublist.map _ List.filter_sublist) this
+  · intro m hm
+    apply h.disjoint
+    simp only [msgs, List.mem_map, List.mem_filter] at hm ⊢
+    obtain ⟨w, ⟨hw, _⟩, rfl⟩ := hm; exact ⟨w, hw, rfl⟩
+  · intro w hw
+    simp only [List.mem_filter] at hw
+    exact h.timers w hw.1
 
 theorem minv_step (t : T) (e : Event) (h : MInv t) : MInv (step t e).1 := by
   unfold step
@@ -316,10 +335,114 @@ theorem minv_step (t : T) (e : Event) (h : MInv t) : MInv (step t e).1 := by
     · exact h
     · exact minv_connectionLost t h
   | advance dt => exact minv_fire t _ (by omega) h
+  | cancel m =>
+    simp only []
+    split
+    · exact h
+    · exact minv_filter t (·.msg != m) h
+  | gclose pending =>
+    simp only []
+    split
+    · exact h
+    · split
+      · exact ⟨h.wireUsed, h.blockedUsed, h.wireNodup, h.blockedNodup, h.disjoint, h.delayPos,
+               h.timers⟩
+      · exact minv_connectionLost t h
 
 theorem minv_run (es : List Event) : ∀ (t : T), MInv t → MInv (run t es).1 := by
   induction es with
   | nil => intro t h; exact h
   | cons e es ih => intro t h; simp only [run]; exact ih _ (minv_step t e h)
+
+/-! ## Frame lemmas: what the sub-steps never touch -/
+
+theorem pause_flags (t : T) : t.pause.1.closing = t.closing ∧ t.pause.1.lost = t.lost := by
+  unfold T.pause; split
+  · simp
+  · split <;> simp
+
+theorem doWrite_flags (t : T) (m : Nat) (f : Bool) :
+    (t.doWrite m f).1.closing = t.closing ∧ (t.doWrite m f).1.lost = t.lost := by
+  unfold T.doWrite
+  split
+  · simp
+  · split
+    · obtain ⟨a, b⟩ := pause_flags (t.written m)
+      exact ⟨by simp only []; rw [a]; rfl, by simp only []; rw [b]; rfl⟩
+    · simp [T.written]
+
+theorem wakeAll_frame (ws : List Writer) : ∀ (t : T) (flags : List Bool),
+    (t.wakeAll ws flags).1.closing = t.closing ∧ (t.wakeAll ws flags).1.lost = t.lost ∧
+    (t.wakeAll ws flags).1.maxDelay = t.maxDelay ∧ (t.wakeAll ws flags).1.now = t.now ∧
+    (t.wakeAll ws flags).1.used = t.used := by
+  induction ws with
+  | nil => intro t flags; simp [T.wakeAll]
+  | cons w ws ih =>
+    intro t flags
+    unfold T.wakeAll
+    split
+    · exact ih _ _
+    · simp only []
+      obtain ⟨a, b, c, d, e⟩ := ih (t.doWrite w.msg (headFlag flags).1).1 (headFlag flags).2
+      obtain ⟨_, _, f3, f4, f5⟩ := doWrite_frame t w.msg (headFlag flags).1
+      obtain ⟨g1, g2⟩ := doWrite_flags t w.msg (headFlag flags).1
+      exact ⟨by rw [a, g1], by rw [b, g2], by rw [c, f5], by rw [d, f4], by rw [e, f3]⟩
+
+/-- on a closing transport a wake-up writes nothing (whatever `_can_send` says) -/
+theorem wakeAll_closing_wire (ws : List Writer) : ∀ (t : T) (flags : List Bool),
+    t.closing = true → (t.wakeAll ws flags).1.wire = t.wire := by
+  induction ws with
+  | nil => intro t flags _; rfl
+  | cons w ws ih =>
+    intro t flags hc
+    unfold T.wakeAll
+    split
+    · exact ih { t with blocked := t.blocked ++ [w] } flags hc
+    · have hdw : (t.doWrite w.msg (headFlag flags).1).1 = t := by simp [T.doWrite, hc]
+      simp only [hdw]
+      exact ih t _ hc
+
+/-- where the messages on the wire / in the blocked list after a wake-up come from -/
+theorem wakeAll_sources (ws : List Writer) : ∀ (t : T) (flags : List Bool),
+    (∀ x ∈ (t.wakeAll ws flags).1.wire, x ∈ t.wire ∨ x ∈ msgs ws) ∧
+    (∀ x ∈ msgs (t.wakeAll ws flags).1.blocked, x ∈ msgs t.blocked ∨ x ∈ msgs ws) := by
+  induction ws with
+  | nil => intro t flags; exact ⟨fun x hx => Or.inl hx, fun x hx => Or.inl hx⟩
+  | cons w ws ih =>
+    intro t flags
+    unfold T.wakeAll
+    split
+    · obtain ⟨a, b⟩ := ih { t with blocked := t.blocked ++ [w] } flags
+      refine ⟨?_, ?_⟩
+      · intro x hx
+        rcases a x hx with h | h
+        · exact Or.inl h
+        · exact Or.inr (by simp [msgs] at h ⊢; exact Or.inr h)
+      · intro x hx
+        rcases b x hx with h | h
+        · simp only [msgs, List.map_append, List.mem_append, List.map_cons, List.map_nil,
+            List.mem_singleton] at h
+          rcases h with h | rfl
+          · exact Or.inl h
+          · exact Or.inr (by simp [msgs])
+        · exact Or.inr (by simp [msgs] at h ⊢; exact Or.inr h)
+    · simp only []
+      obtain ⟨a, b⟩ := ih (t.doWrite w.msg (headFlag flags).1).1 (headFlag flags).2
+      obtain ⟨f1, f2, _, _, _⟩ := doWrite_frame t w.msg (headFlag flags).1
+      refine ⟨?_, ?_⟩
+      · intro x hx
+        rcases a x hx with h | h
+        · rw [f1] at h
+          split at h
+          · exact Or.inl h
+          · simp only [List.mem_append, List.mem_singleton] at h
+            rcases h with h | rfl
+            · exact Or.inl h
+            · exact Or.inr (by simp [msgs])
+        · exact Or.inr (by simp [msgs] at h ⊢; exact Or.inr h)
+      · intro x hx
+        rcases b x hx with h | h
+        · rw [f2] at h; exact Or.inl h
+        · exact Or.inr (by simp [msgs] at h ⊢; exact Or.inr h)
 
 end Aiorpcx.C15
